@@ -201,9 +201,15 @@ pub fn frame(args: &[&[u8]]) -> Vec<u8> {
     v
 }
 
+/// `HEADER_LEN` of the four recognisers in /repo/src/production/connection_optimized.rs: a private
+/// constant, read from the SOURCE by ./check (which exports it) — the model is parameterised by it
+pub fn header_len() -> usize {
+    std::env::var("VERIF_C04_HEADER_LEN").ok().and_then(|v| v.parse().ok()).unwrap_or(14)
+}
+
 fn op_line(cfg: &Cfg, segs: &[Vec<u8>]) -> String {
     let s: Vec<String> = segs.iter().map(|s| hex(s)).collect();
-    format!("C {} {} 14 {} {} {}", cfg.min_pipeline, cfg.batch_threshold, cfg.read_size, cfg.max_buffer, s.join(","))
+    format!("C {} {} {} {} {} {}", cfg.min_pipeline, cfg.batch_threshold, header_len(), cfg.read_size, cfg.max_buffer, s.join(","))
 }
 
 // ---------------------------------------------------------------- generators
@@ -297,17 +303,192 @@ fn config(rng: &mut Rng) -> Cfg {
     }
 }
 
+/// `from_utf8(..).parse::<usize>()`: optional '+', at least one digit, only digits, below 2^64
+fn parse_usize_spec(b: &[u8]) -> Option<usize> {
+    let d = if b.first() == Some(&b'+') { &b[1..] } else { b };
+    if d.is_empty() || !d.iter().all(|c| c.is_ascii_digit()) {
+        return None;
+    }
+    std::str::from_utf8(d).ok()?.parse::<usize>().ok()
+}
+
+/// THE LOOK-ALIKE CLASS (known_findings.json `scope`; Lean: `GetLookalike`, `lookalike_accepted_iff`).
+/// With HEADER_LEN = 14 the GET recognisers accept exactly the byte strings
+///   hdr ++ [x, '$'] ++ digits ++ ['\r', y] ++ key ++ [z1, z2] ++ …
+/// where hdr = `*2\r\n$3\r\nGET\r\n` or `…get…` (13 bytes), x, y, z1, z2 are ARBITRARY bytes, `digits`
+/// contains no CR and is a usize (optional '+'), and key has that many bytes.  Returns (key, total).
+/// Every member is malformed RESP: a well-formed frame has a digit at offset 14, never '$'.
+pub fn lookalike_get(buf: &[u8], h: usize) -> Option<(Vec<u8>, usize)> {
+    if !(buf.starts_with(b"*2\r\n$3\r\nGET\r\n") || buf.starts_with(b"*2\r\n$3\r\nget\r\n")) || buf.len() < h + 1 || buf[h] != b'$' {
+        return None;
+    }
+    let r = buf[h + 1..].iter().position(|c| *c == b'\r')?;
+    let n = parse_usize_spec(&buf[h + 1..h + 1 + r])?;
+    let ks = h + 1 + r + 2;
+    let total = ks.checked_add(n)?.checked_add(2)?;
+    if buf.len() < total {
+        return None;
+    }
+    Some((buf[ks..ks + n].to_vec(), total))
+}
+
+/// the SET class: hdr ++ [x,'$'] ++ d1 ++ ['\r',y1] ++ key ++ [z1,z2] ++ ['$'] ++ d2 ++ ['\r',y2] ++ val ++ [w1,w2] ++ …
+pub fn lookalike_set(buf: &[u8], h: usize) -> Option<(Vec<u8>, Vec<u8>, usize)> {
+    if !(buf.starts_with(b"*3\r\n$3\r\nSET\r\n") || buf.starts_with(b"*3\r\n$3\r\nset\r\n")) || buf.len() < h + 1 || buf[h] != b'$' {
+        return None;
+    }
+    let r = buf[h + 1..].iter().position(|c| *c == b'\r')?;
+    let n = parse_usize_spec(&buf[h + 1..h + 1 + r])?;
+    let ks = h + 1 + r + 2;
+    let ke = ks.checked_add(n)?;
+    let vls = ke.checked_add(2)?;
+    if buf.len() <= vls || buf[vls] != b'$' {
+        return None;
+    }
+    let r2 = buf[vls + 1..].iter().position(|c| *c == b'\r')?;
+    let m = parse_usize_spec(&buf[vls + 1..vls + 1 + r2])?;
+    let vs = vls + 1 + r2 + 2;
+    let total = vs.checked_add(m)?.checked_add(2)?;
+    if buf.len() < total {
+        return None;
+    }
+    Some((buf[ks..ke].to_vec(), buf[vs..vs + m].to_vec(), total))
+}
+
+/// PREFIXES of look-alikes: the recognisers answer "need more data" (and the handler waits) although
+/// the RESP grammar already rejects the bytes — same cause, the reply is withheld instead of wrong.
+/// True iff `buf` is not (yet) a member but the GET recogniser with HEADER_LEN = h waits for more.
+pub fn lookalike_prefix_get(buf: &[u8], h: usize) -> bool {
+    if !(buf.starts_with(b"*2\r\n$3\r\nGET\r\n") || buf.starts_with(b"*2\r\n$3\r\nget\r\n")) || buf.len() < h + 1 || buf[h] != b'$' {
+        return false;
+    }
+    let r = match buf[h + 1..].iter().position(|c| *c == b'\r') {
+        None => return true,
+        Some(r) => r,
+    };
+    let n = match parse_usize_spec(&buf[h + 1..h + 1 + r]) {
+        None => return false,
+        Some(n) => n,
+    };
+    match (h + 1 + r + 2).checked_add(n).and_then(|x| x.checked_add(2)) {
+        None => false,
+        Some(total) => buf.len() < total,
+    }
+}
+
+pub fn lookalike_prefix_set(buf: &[u8], h: usize) -> bool {
+    if !(buf.starts_with(b"*3\r\n$3\r\nSET\r\n") || buf.starts_with(b"*3\r\n$3\r\nset\r\n")) || buf.len() < h + 1 || buf[h] != b'$' {
+        return false;
+    }
+    let r = match buf[h + 1..].iter().position(|c| *c == b'\r') {
+        None => return true,
+        Some(r) => r,
+    };
+    let n = match parse_usize_spec(&buf[h + 1..h + 1 + r]) {
+        None => return false,
+        Some(n) => n,
+    };
+    let vls = match (h + 1 + r + 2).checked_add(n).and_then(|x| x.checked_add(2)) {
+        None => return false,
+        Some(v) => v,
+    };
+    if buf.len() <= vls {
+        return true;
+    }
+    if buf[vls] != b'$' {
+        return false;
+    }
+    let r2 = match buf[vls + 1..].iter().position(|c| *c == b'\r') {
+        None => return true,
+        Some(r) => r,
+    };
+    let m = match parse_usize_spec(&buf[vls + 1..vls + 1 + r2]) {
+        None => return false,
+        Some(m) => m,
+    };
+    match (vls + 1 + r2 + 2).checked_add(m).and_then(|x| x.checked_add(2)) {
+        None => false,
+        Some(total) => buf.len() < total,
+    }
+}
+
+fn any_byte(rng: &mut Rng) -> u8 {
+    *rng.pick(&[b'X', b'$', b'-', b'0', b'\r', b'\n', 0u8, 0xff, b' '])
+}
+
+/// a random member of the look-alike class (built from its definition), or a near miss
+fn gen_lookalike(rng: &mut Rng) -> (Vec<u8>, &'static str) {
+    let set = rng.chance(1, 3);
+    let mut v: Vec<u8> = if set { b"*3\r\n$3\r\n".to_vec() } else { b"*2\r\n$3\r\n".to_vec() };
+    v.extend_from_slice(match (set, rng.chance(1, 4)) {
+        (false, false) => b"GET",
+        (false, true) => b"get",
+        (true, false) => b"SET",
+        (true, true) => b"set",
+    });
+    v.extend_from_slice(b"\r\n");
+    let near = rng.below(8);
+    v.push(any_byte(rng)); // offset 13: arbitrary
+    v.push(if near == 0 { b'1' } else { b'$' }); // offset 14 must be '$'
+    let field = |rng: &mut Rng, v: &mut Vec<u8>, data: &[u8], bad_digits: bool| {
+        if bad_digits {
+            v.extend_from_slice(*rng.pick(&[&b"x"[..], b"", b"-1", b"1 ", b"99999999999999999999"]));
+        } else {
+            if rng.chance(1, 5) {
+                v.push(b'+');
+            }
+            if rng.chance(1, 6) {
+                v.extend_from_slice(b"00");
+            }
+            v.extend_from_slice(data.len().to_string().as_bytes());
+        }
+        v.push(b'\r');
+        v.push(if rng.chance(3, 4) { b'\n' } else { any_byte(rng) });
+        v.extend_from_slice(data);
+        if rng.chance(3, 4) {
+            v.extend_from_slice(b"\r\n");
+        } else {
+            v.push(any_byte(rng));
+            v.push(any_byte(rng));
+        }
+    };
+    let key: Vec<u8> = rng.pick(&[&b"k"[..], b"", b"key:2", b"a\r\nb"]).to_vec();
+    field(rng, &mut v, &key, near == 1);
+    if set {
+        if near == 2 {
+            v.push(b'Y');
+        }
+        v.push(b'$');
+        let val: Vec<u8> = rng.pick(&[&b"v"[..], b"", b"with\r\ncrlf"]).to_vec();
+        field(rng, &mut v, &val, near == 3);
+    }
+    if near == 4 && v.len() > 16 {
+        let n = v.len() - 1 - rng.below(2) as usize;
+        v.truncate(n); // one or two bytes short: never complete
+        return (v, "near-lookalike:truncated");
+    }
+    let label = match near {
+        0 => "near-lookalike:digit-at-14",
+        1 => "near-lookalike:bad-key-length",
+        2 if set => "near-lookalike:junk-before-value",
+        3 if set => "near-lookalike:bad-value-length",
+        _ => "lookalike",
+    };
+    (v, label)
+}
+
 /// malformed frames that a RESP server must reject; (bytes, class)
 fn malformed(rng: &mut Rng) -> (Vec<u8>, &'static str) {
-    match rng.below(8) {
+    match rng.below(12) {
         0 => (b"?what\r\n".to_vec(), "unknown-type-byte"),
-        1 => (b"*2\r\n$3\r\nGET\r\nX$1\r\nk\r\n".to_vec(), "get-lookalike"),
-        2 => (b"*3\r\n$3\r\nSET\r\nX$1\r\nk\r\n$1\r\nv\r\n".to_vec(), "set-lookalike"),
+        1 => (b"*2\r\n$3\r\nGET\r\nX$1\r\nk\r\n".to_vec(), "lookalike"),
+        2 => (b"*3\r\n$3\r\nSET\r\nX$1\r\nk\r\n$1\r\nv\r\n".to_vec(), "lookalike"),
         3 => (b"*1\r\n:x\r\n".to_vec(), "bad-integer"),
         4 => (b"*2\r\n$3\r\nGET\r\n$x\r\nk\r\n".to_vec(), "bad-bulk-length"),
-        5 => (b"*2\r\n$3\r\nget\r\n-$2\r\nkk\r\n".to_vec(), "get-lookalike"),
+        5 => (b"*2\r\n$3\r\nget\r\n-$2\r\nkk\r\n".to_vec(), "lookalike"),
         6 => (b"*x\r\n".to_vec(), "bad-array-length"),
-        _ => (b"*2\r\n$3\r\nGET\r\n$$1\r\nk\r\n".to_vec(), "get-lookalike"),
+        7 => (b"*2\r\n$3\r\nGET\r\n$$1\r\nk\r\n".to_vec(), "lookalike"),
+        _ => gen_lookalike(rng),
     }
 }
 
@@ -380,14 +561,44 @@ fn gen_pipeline(rng: &mut Rng) -> (Vec<Vec<Vec<u8>>>, Vec<u8>, Vec<usize>) {
     (cmds, stream, bounds)
 }
 
-/// well-formed prefix, then one malformed frame
-fn check_malformed(cx: &mut Cx, cfg: &Cfg, cmds: &[Vec<Vec<u8>>], bad: &[u8], class: &str, segs: &[Vec<u8>], src: &str) {
+fn cmd_frames(cmds: &[Vec<Vec<u8>>]) -> Vec<Vec<u8>> {
+    cmds.iter().map(|c| frame(&c.iter().map(|a| &a[..]).collect::<Vec<_>>())).collect()
+}
+
+/// well-formed prefix, one malformed frame, (for look-alikes) a well-formed suffix.
+///
+/// Known findings are attributed by CAUSE: `C04:malformed-{accepted,silence}:{get,set}-lookalike`
+/// fires only if the malformed frame is, byte for byte, a member of the look-alike class
+/// (`lookalike_get` / `lookalike_set`, the class the model with the real HEADER_LEN accepts) AND the
+/// observed reply stream is one of the two the current code can produce for it (the frame
+/// executed as the `GET key` / `SET key value` it resembles, or the frame consumed without a
+/// reply), AND — checked by ./check through `op_index` — equals the model's reply stream for this
+/// very op.  Everything else gets its own signature with the concrete bytes.
+fn check_malformed(cx: &mut Cx, cfg: &Cfg, cmds: &[Vec<Vec<u8>>], bad: &[u8], hint: &str, suffix: &[Vec<Vec<u8>>], segs: &[Vec<u8>], src: &str) {
+    let h = header_len();
+    let lg = lookalike_get(bad, h).filter(|(_, t)| *t == bad.len());
+    let ls = lookalike_set(bad, h).filter(|(_, _, t)| *t == bad.len());
+    let class: String = if lg.is_some() {
+        "get-lookalike".into()
+    } else if ls.is_some() {
+        "set-lookalike".into()
+    } else if lookalike_prefix_get(bad, h) {
+        "get-lookalike-prefix".into()
+    } else if lookalike_prefix_set(bad, h) {
+        "set-lookalike-prefix".into()
+    } else if hint == "lookalike" {
+        "near-lookalike:other".into()
+    } else {
+        hint.to_string()
+    };
     let r = cx.runner.run(cfg, segs);
     let (line, vals) = line_of(&r);
     cx.out.op(op_line(cfg, segs), line.clone());
+    let op_index = cx.out.n_ops();
     cx.out.count(&format!("malformed:{}:{}", src, class));
+    cx.out.count(&format!("malformed-suffix-cmds={}", suffix.len().min(3)));
     cx.out.case(&op_line(cfg, segs), true);
-    let replay = |what: &str| json!({"op": op_line(cfg, segs), "well_formed_prefix_commands": cmds.len(), "malformed_frame": String::from_utf8_lossy(bad), "class": class, "observed": line, "expected": what, "source": src});
+    let replay = |what: &str| json!({"op": op_line(cfg, segs), "op_index": op_index, "well_formed_prefix_commands": cmds.len(), "malformed_frame": String::from_utf8_lossy(bad), "malformed_frame_hex": hex(bad), "commands_after_it": suffix.len(), "segments": segs.iter().map(|s| hex(s)).collect::<Vec<_>>(), "class": class, "observed": line, "expected": what, "source": src});
     match &r.end {
         End::Crash(m) => {
             let sig = if class == "huge-key-length" { "C04:crash:recogniser-length-overflow".to_string() } else { format!("C04:crash:{}", class) };
@@ -400,18 +611,73 @@ fn check_malformed(cx: &mut Cx, cfg: &Cfg, cmds: &[Vec<Vec<u8>>], bad: &[u8], cl
         }
         End::Eof => {}
     }
-    // replies to the earlier commands are unchanged
     let twin_cfg = Cfg { min_pipeline: 1 << 40, batch_threshold: 1 << 20, read_size: 8192, max_buffer: 1_000_000 };
-    let twin_segs: Vec<Vec<u8>> = cmds.iter().map(|c| frame(&c.iter().map(|a| &a[..]).collect::<Vec<_>>())).collect();
-    let t = cx.runner.run(&twin_cfg, &twin_segs);
-    let (_, tvals) = line_of(&t);
+    let mut twin = |cx: &mut Cx, cs: &[Vec<Vec<u8>>]| -> Vec<V> {
+        let t = cx.runner.run(&twin_cfg, &cmd_frames(cs));
+        line_of(&t).1
+    };
+    // replies to the earlier commands are unchanged
+    let tvals = twin(cx, cmds);
     if vals.len() < cmds.len() || vals[..cmds.len()] != tvals[..] {
         cx.out.violation(&format!("C04:malformed-alters-earlier-replies:{}", class), "a malformed frame changed (or removed) replies to earlier commands", replay("earlier replies unchanged"));
         return;
     }
-    if vals.len() == cmds.len() {
+    let rest = &vals[cmds.len()..];
+    let as_cmd: Option<Vec<Vec<u8>>> = if let Some((k, _)) = &lg {
+        Some(vec![b"GET".to_vec(), k.clone()])
+    } else if let Some((k, v, _)) = &ls {
+        Some(vec![b"SET".to_vec(), k.clone(), v.clone()])
+    } else {
+        None
+    };
+    if let Some(c) = as_cmd {
+        // the two reply streams the code as it is can produce for a member of the class
+        let mut exec: Vec<Vec<Vec<u8>>> = cmds.to_vec();
+        exec.push(c);
+        exec.extend(suffix.iter().cloned());
+        let a = twin(cx, &exec);
+        let mut skip: Vec<Vec<Vec<u8>>> = cmds.to_vec();
+        skip.extend(suffix.iter().cloned());
+        let b = twin(cx, &skip);
+        let mut rp = replay("an error reply");
+        rp["model_must_agree"] = json!(true);
+        let sig = if rest == &a[cmds.len()..] { Some(format!("C04:malformed-accepted:{}", class)) } else if rest == &b[cmds.len()..] { Some(format!("C04:malformed-silence:{}", class)) } else { None };
+        if let Some(sig) = &sig {
+            let e = cx.out.extra.entry("must_agree".to_string()).or_insert_with(|| json!([]));
+            e.as_array_mut().unwrap().push(json!([op_index, sig]));
+        }
+        if rest == &a[cmds.len()..] {
+            cx.out.violation(&format!("C04:malformed-accepted:{}", class), "a look-alike frame (garbage byte where the `$` of the key belongs) is executed as the GET / SET it resembles", rp);
+        } else if rest == &b[cmds.len()..] {
+            cx.out.violation(&format!("C04:malformed-silence:{}", class), "a look-alike frame is consumed by a batch collector and, below batch_threshold, dropped: no reply for the frame", rp);
+        } else {
+            cx.out.violation(&format!("C04:malformed-lookalike-unpredicted-outcome:{}", class), "a look-alike frame was neither executed as the command it resembles nor simply dropped: replies of other commands are affected", replay("(known finding) the frame executed as GET/SET, or consumed without reply — nothing else"));
+        }
+        return;
+    }
+    // only a frame that the RESP grammar REJECTS must be answered with an error; a near miss that is
+    // merely an incomplete (or a well-formed) frame may legitimately stay unanswered at EOF
+    let verdict = crate::c15::decode_here(2, bad);
+    if verdict.kind != crate::c15::Kind::Error {
+        cx.out.count(&format!("malformed-not-rejected-by-grammar:{}", class));
+        if rest.first().map(|v| !matches!(v, V::E(_))).unwrap_or(false) && verdict.kind == crate::c15::Kind::Incomplete {
+            cx.out.violation(&format!("C04:incomplete-frame-executed:{}", class), "an incomplete frame was executed as a command", replay("no reply before the frame is complete"));
+        }
+        return;
+    }
+    if rest.is_empty() && class.ends_with("-lookalike-prefix") && suffix.is_empty() {
+        // same cause as the look-alikes: the recogniser waits for the rest of a frame it would accept
+        let sig = format!("C04:malformed-stall:{}", class);
+        let e = cx.out.extra.entry("must_agree".to_string()).or_insert_with(|| json!([]));
+        e.as_array_mut().unwrap().push(json!([op_index, sig]));
+        let mut rp = replay("an error reply");
+        rp["model_must_agree"] = json!(true);
+        cx.out.violation(&sig, "a proper prefix of a look-alike frame, which the RESP grammar already rejects, gets no reply: the fast path waits for the rest of the frame", rp);
+        return;
+    }
+    if rest.is_empty() {
         cx.out.violation(&format!("C04:malformed-silence:{}", class), "a complete malformed frame got no reply at all", replay("an error reply"));
-    } else if !matches!(vals[cmds.len()], V::E(_)) {
+    } else if !matches!(rest[0], V::E(_)) {
         cx.out.violation(&format!("C04:malformed-accepted:{}", class), "a malformed frame was executed as a command (data reply instead of an error)", replay("an error reply"));
     }
 }
@@ -431,7 +697,7 @@ fn pooled_op(cfg: &Cfg, pool_size: usize, conns: &[Conn]) -> String {
             format!("{}/{}", if segs.is_empty() { "-".to_string() } else { segs.join(",") }, c.fail.map(|f| f.to_string()).unwrap_or("-".into()))
         })
         .collect();
-    format!("P {} {} 14 {} {} {} {}", cfg.min_pipeline, cfg.batch_threshold, cfg.read_size, cfg.max_buffer, pool_size, cs.join(";"))
+    format!("P {} {} {} {} {} {} {}", cfg.min_pipeline, cfg.batch_threshold, header_len(), cfg.read_size, cfg.max_buffer, pool_size, cs.join(";"))
 }
 
 /// a sequence of connections served one after the other by ONE server-wide buffer pool (each on a
@@ -536,42 +802,36 @@ fn pooled_random(cx: &mut Cx, rng: &mut Rng) {
 fn fixed_corpus(cx: &mut Cx) {
     let d = Cfg::default_like();
     let ping = frame(&[b"PING"]);
+    let pings: Vec<Vec<Vec<u8>>> = vec![vec![b"PING".to_vec()]; 3];
     // W1: GET look-alike accepted by the fast path
     let bad = b"*2\r\n$3\r\nGET\r\nX$1\r\nk\r\n".to_vec();
-    check_malformed(cx, &d, &[], &bad, "get-lookalike", &[bad.clone()], "corpus");
+    check_malformed(cx, &d, &[], &bad, "lookalike", &[], &[bad.clone()], "corpus");
     // W2: the same frame in a buffer above min_pipeline_buffer is consumed by collect_get_keys
     //     and dropped (count 1 < batch_threshold 2): silence
     let mut s = bad.clone();
     for _ in 0..3 {
         s.extend_from_slice(&ping);
     }
-    let r = cx.runner.run(&d, &[s.clone()]);
-    let (line, vals) = line_of(&r);
-    cx.out.op(op_line(&d, &[s.clone()]), line.clone());
-    cx.out.case(&op_line(&d, &[s.clone()]), true);
-    if vals.len() == 3 {
-        cx.out.violation("C04:malformed-silence:get-lookalike", "collect_get_keys consumed a GET look-alike and dropped it (count below batch_threshold): no reply for the frame", json!({"op": op_line(&d, &[s.clone()]), "observed": line, "expected": "4 replies, the first an error"}));
-    }
+    check_malformed(cx, &d, &[], &bad, "lookalike", &pings, &[s.clone()], "corpus");
     // the SET recogniser has the same off-by-one
     let bad = b"*3\r\n$3\r\nSET\r\nX$1\r\nk\r\n$1\r\nv\r\n".to_vec();
-    check_malformed(cx, &d, &[], &bad, "set-lookalike", &[bad.clone()], "corpus");
+    check_malformed(cx, &d, &[], &bad, "lookalike", &[], &[bad.clone()], "corpus");
     let mut s = bad.clone();
     for _ in 0..3 {
         s.extend_from_slice(&ping);
     }
-    let r = cx.runner.run(&d, &[s.clone()]);
-    let (line, vals) = line_of(&r);
-    cx.out.op(op_line(&d, &[s.clone()]), line.clone());
-    cx.out.case(&op_line(&d, &[s.clone()]), true);
-    if vals.len() == 3 {
-        cx.out.violation("C04:malformed-silence:set-lookalike", "collect_set_pairs consumed a SET look-alike and dropped it (count below batch_threshold): no reply for the frame", json!({"op": op_line(&d, &[s.clone()]), "observed": line, "expected": "4 replies, the first an error"}));
-    }
+    check_malformed(cx, &d, &[], &bad, "lookalike", &pings, &[s.clone()], "corpus");
+    // proper prefixes of look-alikes: the fast path waits although the grammar already rejects
+    let bad = b"*2\r\n$3\r\nGET\r\nX$4\r\nab".to_vec();
+    check_malformed(cx, &d, &[vec![b"PING".to_vec()]], &bad, "lookalike", &[], &[ping.clone(), bad.clone()], "corpus");
+    let bad = b"*3\r\n$3\r\nSET\r\nX$1\r\nk\r\n$9\r\nv".to_vec();
+    check_malformed(cx, &d, &[vec![b"PING".to_vec()]], &bad, "lookalike", &[], &[ping.clone(), bad.clone()], "corpus");
     // W3: wrapping length arithmetic in the recognisers
     let bad = b"*2\r\n$3\r\nGET\r\nX$18446744073709551615\r\nab".to_vec();
-    check_malformed(cx, &d, &[], &bad, "huge-key-length", &[bad.clone()], "corpus");
+    check_malformed(cx, &d, &[], &bad, "huge-key-length", &[], &[bad.clone()], "corpus");
     // W4: the codec's negative bulk length reaches the connection
     let bad = b"$-2\r\n".to_vec();
-    check_malformed(cx, &d, &[vec![b"PING".to_vec()]], &bad, "bulk-negative-len", &[ping.clone(), bad.clone()], "corpus");
+    check_malformed(cx, &d, &[vec![b"PING".to_vec()]], &bad, "bulk-negative-len", &[], &[ping.clone(), bad.clone()], "corpus");
     // W5: an error reply that embeds client bytes with CR LF is two replies on the wire (oracle only:
     //     the model's reference executor does not produce error texts)
     let inj = frame(&[b"FOO\r\n+INJECTED"]);
@@ -618,19 +878,41 @@ fn run_inner(a: &Args) {
         let (cmds, stream, bounds) = gen_pipeline(&mut rng);
         if rng.chance(1, 5) {
             let (bad, class) = malformed(&mut rng);
+            // MULTI prefixes are excluded (inside a transaction nothing is executed before EXEC)
+            if cmds.iter().any(|c| c[0].eq_ignore_ascii_case(b"MULTI")) {
+                continue;
+            }
+            let h = header_len();
+            let is_member = lookalike_get(&bad, h).map(|x| x.1 == bad.len()).unwrap_or(false) || lookalike_set(&bad, h).map(|x| x.2 == bad.len()).unwrap_or(false);
+            // members of the look-alike class are also followed by well-formed commands
+            let mut suffix: Vec<Vec<Vec<u8>>> = Vec::new();
+            if is_member && rng.chance(2, 3) {
+                for _ in 0..rng.range(1, 3) {
+                    suffix.push(match rng.below(3) {
+                        0 => vec![b"PING".to_vec()],
+                        1 => vec![b"GET".to_vec(), rng.pick(&KEYS).to_vec()],
+                        _ => vec![b"SET".to_vec(), rng.pick(&KEYS).to_vec(), value(&mut rng)],
+                    });
+                }
+            }
             let mut s = stream.clone();
             s.extend_from_slice(&bad);
             let mut b2 = bounds.clone();
             if !stream.is_empty() {
                 b2.push(stream.len());
             }
-            // the malformed frame arrives in one piece with or after the prefix; MULTI prefixes are
-            // excluded (inside a transaction nothing is executed before EXEC)
-            if cmds.iter().any(|c| c[0].eq_ignore_ascii_case(b"MULTI")) {
-                continue;
+            for c in cmd_frames(&suffix) {
+                b2.push(s.len());
+                s.extend_from_slice(&c);
             }
-            let segs = if rng.chance(1, 2) { vec![s.clone()] } else { cut(&s, &b2) };
-            check_malformed(&mut cx, &cfg, &cmds, &bad, class, &segs, "random");
+            // the malformed frame arrives in one piece with the rest, at frame boundaries, or (look-alikes)
+            // cut anywhere
+            let segs = match rng.below(if is_member { 3 } else { 2 }) {
+                0 => vec![s.clone()],
+                1 => cut(&s, &b2),
+                _ => segmentation(&mut rng, &s, &b2),
+            };
+            check_malformed(&mut cx, &cfg, &cmds, &bad, class, &suffix, &segs, "random");
         } else {
             let segs = segmentation(&mut rng, &stream, &bounds);
             check_wellformed(&mut cx, &cfg, &cmds, &segs, "random");
